@@ -190,7 +190,7 @@ theorem cmp_neg_of_days_lt (h : WF c) (d1 d2 : Int) (hlo : c.start c.minYear ≤
             omega
     cases hoc : c.ownCompare
     · have hk := h.plain_key hoc
-      rw [hk, hk] at hkey
+      rw [hk y1 m1 hy1 hy12 p1 p2, hk y1 m2 hy1 hy12 q1 q2] at hkey
       simp only [Bool.false_eq_true, if_false]
       unfold packYmd
       rcases hkey with hk1 | ⟨rfl, hk2⟩ <;> omega
